@@ -64,7 +64,7 @@ def run(ctx):
     R2 = 'C18-R2'
     ctx.rule(R2, 'ColumnIndex::from_bytes verifies the checksum before decoding entries; column bytes are read only by '
                  'Column::get_block')
-    b = prog.body(FROM_BYTES)
+    b = prog.inlined(FROM_BYTES)
     if ctx.anchor(R2, FROM_BYTES, b is not None):
         ctx.functions_analysed.add(b.name)
         v = done_sites(prog, b, 'checksum::verify_checksum')
@@ -88,7 +88,7 @@ def run(ctx):
     R4 = 'C18-R4'
     ctx.rule(R4, 'verify_checksum: every successful return is dominated by the comparison of the computed value with the '
                  'stored checksum (no checksum type short-cuts to Ok)')
-    b = prog.body(VERIFY)
+    b = prog.inlined(VERIFY)
     if ctx.anchor(R4, VERIFY, b is not None):
         ctx.functions_analysed.add(b.name)
         cmps = [bb for bb, st in b.stmts() if st.get('rv', {}).get('rv') == 'binop' and st['rv']['op'] in ('Ne', 'Eq')
@@ -144,8 +144,8 @@ def run(ctx):
             and consts.get('BLOCK_META_SIZE') == n1 + n2
         ctx.ob(R6, 'BlockMeta·trailer-mirror', ok, f'trailer written {p1}+{p2}, read {g}; constants {consts}; bytes {n1}+{n2}',
                [enc1.loc, dec.loc])
-    fin = prog.body(SEC + 'index_builder::IndexBuilder::finish')
-    fb = prog.body(FROM_BYTES)
+    fin = prog.inlined(SEC + 'index_builder::IndexBuilder::finish')
+    fb = prog.inlined(FROM_BYTES)
     if ctx.anchor(R6, 'IndexBuilder::finish', fin is not None) and fb is not None:
         ctx.functions_analysed.add(fin.name)
         pw, gr = seq(fin, 'put'), seq(fb, 'get')
@@ -157,7 +157,7 @@ def run(ctx):
         ctx.ob(R6, 'index-footer·mirror', pw == gr and foot is not None and int(foot['bits']) == nbytes and before,
                f'footer written {pw}, read {gr}; INDEX_FOOTER_SIZE={foot and foot["bits"]}, bytes written {nbytes}; checksum computed '
                f'before the footer is appended: {before}', [fin.loc, fb.loc])
-    fbk = prog.body(SEC + 'block::block_index_builder::BlockIndexBuilder::finish_block')
+    fbk = prog.inlined(SEC + 'block::block_index_builder::BlockIndexBuilder::finish_block')
     if ctx.anchor(R6, 'BlockIndexBuilder::finish_block', fbk is not None):
         ctx.functions_analysed.add(fbk.name)
         bc = [c.bb for c in fbk.calls if (c.fn or '').endswith('build_checksum')]
@@ -172,7 +172,7 @@ def run(ctx):
                  'build_checksum (and written into the trailer) is read from the builder options, or from a field of self that '
                  'finish_block itself never writes or mutably borrows; a template that is consumed by the first block leaves every '
                  'later block with the default type None, whose "checksum" is always valid')
-    fb = prog.body('storage::secondary::block::block_index_builder::BlockIndexBuilder::finish_block')
+    fb = prog.inlined('storage::secondary::block::block_index_builder::BlockIndexBuilder::finish_block')
     if ctx.anchor(R7, 'BlockIndexBuilder::finish_block', fb is not None):
         ctx.functions_analysed.add(fb.name)
         bc = [c for c in fb.calls if (c.fn or '').endswith('checksum::build_checksum')]
@@ -182,10 +182,10 @@ def run(ctx):
             for bb, st in fb.stmts():
                 if st['s'] != 'assign':
                     continue
-                if st['lhs']['l'] == 1 and st['lhs']['p']:
+                if st['lhs']['l'] in fb.self_aliases() and st['lhs']['p']:
                     written |= set(pl_fields(st['lhs'])[:1])
                 rv = st['rv']
-                if rv.get('rv') == 'ref' and rv.get('mut') and rv['pl']['l'] == 1:
+                if rv.get('rv') == 'ref' and rv.get('mut') and rv['pl']['l'] in fb.self_aliases():
                     written |= set(pl_fields(rv['pl'])[:1])
             for c in bc:
                 src_fields = set()
@@ -193,7 +193,7 @@ def run(ctx):
                     for bb, kind, payload in local_defs(fb, l):
                         if kind == 'assign':
                             for pl in operand_places(payload):
-                                if pl['l'] == 1:
+                                if pl['l'] in fb.self_aliases():
                                     src_fields |= set(pl_fields(pl)[:1])
                 from_options = any(f.endswith('BlockIndexBuilder::options') for f in src_fields)
                 stable = bool(src_fields) and not (src_fields & written)
@@ -208,7 +208,7 @@ def run(ctx):
     ctx.rule(R8, 'what ColumnIndex::from_bytes takes from the footer without checksum protection is cross-checked against the protected '
                  'part: the block count must consume exactly the checksummed index entries (after the decode loop the remaining '
                  'index data is tested for emptiness, with an error exit)')
-    fb_ = prog.body(FROM_BYTES)
+    fb_ = prog.inlined(FROM_BYTES)
     if ctx.anchor(R8, FROM_BYTES, fb_ is not None):
         ctx.functions_analysed.add(fb_.name)
         dec = [c for c in fb_.calls if re.search(r'decode_length_delimited$', c.fn or '')]
@@ -232,7 +232,7 @@ def run(ctx):
     ctx.rule(R10, 'a damaged index file is reported, not crashed on: ColumnIndex::from_bytes slices its input at `len - footer size` only behind a '
                   'test of the length with an error exit, and the Vec it fills is not sized by the block count of the footer alone (that count '
                   'is not covered by the checksum): the capacity passes through `min` or does not come from the footer')
-    fb2 = prog.body(FROM_BYTES)
+    fb2 = prog.inlined(FROM_BYTES)
     if ctx.anchor(R10, FROM_BYTES, fb2 is not None):
         errs = fb2.error_exit_blocks()
         slices = [c for c in fb2.calls if re.search(r'ops::Index(Mut)?::index(_mut)?$|slice::<impl \[T\]>::(split_at|split_at_mut|split_at_unchecked)$', c.fn or '')]
